@@ -46,11 +46,11 @@ typedef struct S_class_crab__variable VAR;
 static inline bool zin(i128 v, i128 b){ return v > -b && v < b; }
 
 #ifdef LINCST_CONCRETE
-/* ---- CONCRETE reading (BOUNDED: input expressions have at most NT terms, results at most MAXT = 4) */
+/* ---- CONCRETE reading (BOUNDED: input expressions have at most NT terms, results at most MAXT = 2 * NT) */
 #ifndef NT
 #define NT 2
 #endif
-#define MAXT 4
+#define MAXT (2 * NT)
 extern const struct anon_f0db2cc371 _ZTVN4crab8variableIN4ikos8z_numberE2VNEE;
 extern const struct anon_f0db2cc371 _ZTV2VN;
 #define VT_VAR ((void *)&_ZTVN4crab8variableIN4ikos8z_numberE2VNEE.f0.a[2])
@@ -62,17 +62,16 @@ uint32_t __CPROVER_uninterpreted_val(uint64_t);
 #define VAL(i) ((i128)(int32_t)__CPROVER_uninterpreted_val(i))
 #define FM_IDX(m, i) VAR_IDX(&FM_START(m)[i].f0)
 #define FM_COEF(m, i) ZV(&FM_START(m)[i].f1)
+#define FM_VAL(m, i) VAL(FM_IDX(m, i))
 /* representation invariant of the term container: at most n terms, sorted by strictly increasing variable index,
  * no zero coefficient, coefficients inside (-z, z), well-formed variable objects */
 static inline bool fm_term_ok(const FM *m, uint64_t i, i128 z){ return var_ok(&FM_START(m)[i].f0) && FM_COEF(m, i) != 0 && zin(FM_COEF(m, i), z); }
 static inline bool fm_okz(const FM *m, uint64_t n, i128 z){
-  if (!(FM_SIZE(m) <= n && FM_SIZE(m) <= FM_CAP(m))) return false;
-  bool ok = true;
-  if (FM_SIZE(m) > 0) ok = ok && fm_term_ok(m, 0, z);
-  if (FM_SIZE(m) > 1) ok = ok && fm_term_ok(m, 1, z) && FM_IDX(m, 0) < FM_IDX(m, 1);
-  if (FM_SIZE(m) > 2) ok = ok && fm_term_ok(m, 2, z) && FM_IDX(m, 1) < FM_IDX(m, 2);
-  if (FM_SIZE(m) > 3) ok = ok && fm_term_ok(m, 3, z) && FM_IDX(m, 2) < FM_IDX(m, 3);
-  return ok; }
+  if (!(FM_SIZE(m) <= n && FM_SIZE(m) <= MAXT && FM_SIZE(m) <= FM_CAP(m))) return false;
+  for (unsigned i = 0; i < MAXT; i++) if (i < FM_SIZE(m)) {
+    if (!fm_term_ok(m, i, z)) return false;
+    if (i > 0 && !(FM_IDX(m, i - 1) < FM_IDX(m, i))) return false; }
+  return true; }
 /* the product symbol of models/zmodel.c as a side-effect-free term (identical to ZM_mul_pure: exact for operands
  * 0, 1, -1, otherwise the uninterpreted symbol; bit-precise under ZM_PRECISE) */
 #ifdef ZM_PRECISE
@@ -85,31 +84,78 @@ static inline i128 lmul(i128 a, i128 b){
   if (a == -1) return -b; if (b == -1) return -a;
   return __CPROVER_uninterpreted_zmul(a, b); }
 #endif
-#define FM_VAL(m, i) VAL(FM_IDX(m, i))
 #define FM_PROD(m, i) lmul(FM_COEF(m, i), FM_VAL(m, i))
-#define FM_TERM(m, i) ((i) < FM_SIZE(m) ? FM_PROD(m, i) : (i128)0)
-/* ---- lemma INSTANCES (schemas: lemmas/lincst_ring.smt2) */
-#define L_RANGE72(a, b) zin(lmul(a, b), ((i128)1) << 72)                        /* |a| < 2^41, |b| < 2^31 */
-#define L_RANGE116(a, b) zin(lmul(a, b), ((i128)1) << 116)                      /* |a| < 2^41, |b| < 2^75 */
-#define L_NEG(c, v) (lmul(-(c), v) == -lmul(c, v))
-#define L_DIST(p, q, v) (lmul((p) + (q), v) == lmul(p, v) + lmul(q, v))
-#define L_DISTM(p, q, v) (lmul((p) - (q), v) == lmul(p, v) - lmul(q, v))
-#define L_ASSOC(n, c, v) (lmul(lmul(n, c), v) == lmul(n, lmul(c, v)))
-#define L_DISTR(n, a, b) (lmul(n, (a) + (b)) == lmul(n, a) + lmul(n, b))
-/* P holds of every term of m */
-#define FORTERMS(m, P) ((FM_SIZE(m) <= 0 || P(m, 0)) && (FM_SIZE(m) <= 1 || P(m, 1)) && (FM_SIZE(m) <= 2 || P(m, 2)) && (FM_SIZE(m) <= 3 || P(m, 3)))
-#define P_RANGE(m, i) L_RANGE72(FM_COEF(m, i), FM_VAL(m, i))
-#define P_NEG(m, i) L_NEG(FM_COEF(m, i), FM_VAL(m, i))
-static inline bool fm_range_lemmas(const FM *m){ return FORTERMS(m, P_RANGE); }
-static inline bool fm_neg_lemmas(const FM *m){ return FORTERMS(m, P_RANGE) && FORTERMS(m, P_NEG); }
-#define NEG_LEMMAS(e) fm_neg_lemmas(MAPP(*(e)))
-static inline i128 fm_eval(const FM *m){ return FM_TERM(m, 0) + FM_TERM(m, 1) + FM_TERM(m, 2) + FM_TERM(m, 3); }
-/* coefficient of the variable with index x (0 when absent) */
-#define FM_GET1(m, i, x) (((i) < FM_SIZE(m) && FM_IDX(m, i) == (x)) ? FM_COEF(m, i) : (i128)0)
-static inline i128 fm_get(const FM *m, uint64_t x){ return FM_GET1(m, 0, x) + FM_GET1(m, 1, x) + FM_GET1(m, 2, x) + FM_GET1(m, 3, x); }
+/* value of the variable part under the valuation; coefficient of the variable with index x (0 when absent) */
+static inline i128 fm_eval(const FM *m){ i128 s = 0; for (unsigned i = 0; i < MAXT; i++) if (i < FM_SIZE(m)) s += FM_PROD(m, i); return s; }
+static inline i128 fm_get(const FM *m, uint64_t x){ i128 s = 0; for (unsigned i = 0; i < MAXT; i++) if (i < FM_SIZE(m) && FM_IDX(m, i) == x) s += FM_COEF(m, i); return s; }
 #define MAP_CONST(m) (FM_SIZE(m) == 0)
 #define MAP_E(m) fm_eval(m)
 #define MAP_OKN(m, n, z) fm_okz(m, n, z)
+/* ---- lemma INSTANCES (schemas: lemmas/lincst_ring.smt2), over the terms of INPUT maps (at most NT terms).
+ * R72: |c| < 2^41, |v| < 2^31 => |c * v| < 2^72;  R116: |n| < 2^41, |t| < 2^75 => |n * t| < 2^116 */
+#define R72 (((i128)1) << 72)
+#define R116 (((i128)1) << 116)
+/* products of the terms in range */
+static inline bool fm_range_lemmas(const FM *m){
+  for (unsigned i = 0; i < NT; i++) if (i < FM_SIZE(m) && !zin(FM_PROD(m, i), R72)) return false;
+  return true; }
+/* ... and (-c) * v = -(c * v) for every term */
+static inline bool fm_neg_lemmas(const FM *m){
+  for (unsigned i = 0; i < NT; i++) if (i < FM_SIZE(m)) { i128 p = FM_PROD(m, i); if (!(zin(p, R72) && lmul(-FM_COEF(m, i), FM_VAL(m, i)) == -p)) return false; }
+  return true; }
+#define NEG_LEMMAS(e) fm_neg_lemmas(MAPP(*(e)))
+/* e1 + e2: a variable of both: (p + q) * v = p * v + q * v */
+static inline bool fm_add_lemmas(const FM *a, const FM *b){
+  i128 pa[NT], pb[NT];
+  for (unsigned i = 0; i < NT; i++) { pa[i] = i < FM_SIZE(a) ? FM_PROD(a, i) : 0; pb[i] = i < FM_SIZE(b) ? FM_PROD(b, i) : 0; if (!(zin(pa[i], R72) && zin(pb[i], R72))) return false; }
+  for (unsigned i = 0; i < NT; i++) for (unsigned j = 0; j < NT; j++)
+    if (i < FM_SIZE(a) && j < FM_SIZE(b) && FM_IDX(a, i) == FM_IDX(b, j) && !(lmul(FM_COEF(a, i) + FM_COEF(b, j), FM_VAL(a, i)) == pa[i] + pb[j])) return false;
+  return true; }
+/* e1 - e2: (-q) * v = -(q * v) for the terms of e2 and (p + (-q)) * v = p * v + (-q) * v for a variable of both */
+static inline bool fm_sub_lemmas(const FM *a, const FM *b){
+  i128 pa[NT], nb[NT];
+  for (unsigned i = 0; i < NT; i++) { pa[i] = i < FM_SIZE(a) ? FM_PROD(a, i) : 0; i128 pb = i < FM_SIZE(b) ? FM_PROD(b, i) : 0; nb[i] = i < FM_SIZE(b) ? lmul(-FM_COEF(b, i), FM_VAL(b, i)) : 0;
+    if (!(zin(pa[i], R72) && zin(pb, R72) && nb[i] == -pb)) return false; }
+  for (unsigned i = 0; i < NT; i++) for (unsigned j = 0; j < NT; j++)
+    if (i < FM_SIZE(a) && j < FM_SIZE(b) && FM_IDX(a, i) == FM_IDX(b, j) && !(lmul(FM_COEF(a, i) + -FM_COEF(b, j), FM_VAL(a, i)) == pa[i] + nb[j])) return false;
+  return true; }
+/* e + k * x for k = 1, -1: a term of e on x: (p + k) * v = p * v + k * v */
+static inline bool fm_addvar_lemmas(const FM *m, uint64_t x, i128 k){
+  for (unsigned i = 0; i < NT; i++) if (i < FM_SIZE(m)) { i128 p = FM_PROD(m, i); if (!zin(p, R72)) return false;
+    if (FM_IDX(m, i) == x && !(lmul(FM_COEF(m, i) + k, FM_VAL(m, i)) == p + lmul(k, FM_VAL(m, i)))) return false; }
+  return true; }
+/* n * e: (n * c) * v = n * (c * v) per term, n * (t0 + t1 (+ t2)) = n * t0 + n * t1 (+ n * t2), products in range */
+static inline bool fm_scale_lemmas(const FM *m, i128 n){
+  i128 p[NT], q[NT], sp = 0, sq = 0;
+  for (unsigned i = 0; i < NT; i++) { p[i] = 0; q[i] = 0; if (i < FM_SIZE(m)) { p[i] = FM_PROD(m, i); if (!zin(p[i], R72)) return false; q[i] = lmul(n, p[i]);
+      if (!(zin(q[i], R116) && lmul(lmul(n, FM_COEF(m, i)), FM_VAL(m, i)) == q[i])) return false;
+      if (i > 0 && !(lmul(n, sp + p[i]) == sq + q[i])) return false;
+      sp += p[i]; sq += q[i]; } }
+  return true; }
+/* renaming rho: an arbitrary partial function on variable indices (units/lincst/lemodel.c), identity where undefined */
+unsigned char __CPROVER_uninterpreted_rho_has(uint64_t);
+uint64_t __CPROVER_uninterpreted_rho(uint64_t);
+#define RHO_HAS(x) (__CPROVER_uninterpreted_rho_has(x) != 0)
+#define RHO(x) (RHO_HAS(x) ? __CPROVER_uninterpreted_rho(x) : (uint64_t)(x))
+#define FM_RIDX(m, i) RHO(FM_IDX(m, i))
+#define FM_RPROD(m, i) lmul(FM_COEF(m, i), VAL(FM_RIDX(m, i)))
+/* value of the variable part under the valuation composed with rho; coefficient of x after renaming (terms that are
+ * renamed to the same variable add up) */
+static inline i128 fm_eval_renamed(const FM *m){ i128 s = 0; for (unsigned i = 0; i < NT; i++) if (i < FM_SIZE(m)) s += FM_RPROD(m, i); return s; }
+static inline i128 fm_get_renamed(const FM *m, uint64_t x){ i128 s = 0; for (unsigned i = 0; i < NT; i++) if (i < FM_SIZE(m) && FM_RIDX(m, i) == x) s += FM_COEF(m, i); return s; }
+/* two terms renamed to the same variable: (p + q) * v = p * v + q * v (BOUNDED: at most 2 terms) */
+static inline bool fm_rename_lemmas(const FM *m){
+  i128 p[NT];
+  for (unsigned i = 0; i < NT; i++) { p[i] = i < FM_SIZE(m) ? FM_RPROD(m, i) : 0; if (!zin(p[i], R72)) return false; }
+#if NT >= 2
+  if (FM_SIZE(m) >= 2 && FM_RIDX(m, 0) == FM_RIDX(m, 1) && !(lmul(FM_COEF(m, 0) + FM_COEF(m, 1), VAL(FM_RIDX(m, 0))) == p[0] + p[1])) return false;
+#endif
+  return true; }
+/* the same terms (syntactic equality of the term sequences) */
+static inline bool fm_same(const FM *a, const FM *b){
+  if (FM_SIZE(a) != FM_SIZE(b)) return false;
+  for (unsigned i = 0; i < NT; i++) if (i < FM_SIZE(a) && !(FM_IDX(a, i) == FM_IDX(b, i) && FM_COEF(a, i) == FM_COEF(b, i))) return false;
+  return true; }
 #else
 /* ---- ABSTRACT reading */
 unsigned char __CPROVER_uninterpreted_map_const(void *);
@@ -121,6 +167,13 @@ static inline i128 map_e_abs(void *m){ i128 g = (i128)(__CPROVER_uninterpreted_m
 #define MAP_E(m) (MAP_CONST(m) ? (i128)0 : map_e_abs((void *)(m)))
 #define MAP_OKN(m, n, z) 1
 #define NEG_LEMMAS(e) 1
+/* value of the variable part under the valuation composed with the renaming: a second uninterpreted function of the map */
+unsigned char __CPROVER_uninterpreted_map_rsign(void *);
+uint64_t __CPROVER_uninterpreted_map_rmag(void *);
+static inline i128 map_er_abs(void *m){ i128 g = (i128)(__CPROVER_uninterpreted_map_rmag(m) >> 4); return __CPROVER_uninterpreted_map_rsign(m) != 0 ? -g : g; }
+#define fm_eval_renamed(m) (MAP_CONST(m) ? (i128)0 : map_er_abs((void *)(m)))
+#define fm_get_renamed(m, x) ((i128)0)
+#define fm_rename_lemmas(m) 1
 #endif
 
 /* ---- expressions and constraints */
@@ -134,6 +187,8 @@ static inline bool le_oknz(const LE *e, uint64_t n, i128 z){ return zin(LE_CST(e
 #define NT 2
 #endif
 #define le_okz(e, z) le_oknz(e, NT, z)
+/* only the constant is constrained (for members that do not look at the terms) */
+#define le_ok_any(e) zin(LE_CST(e), ZB)
 #define le_ok(e) le_oknz(e, NT, ZB)
 static inline bool lc_okz(const LC *c, i128 z){ return c->f0 <= 3 && le_okz(&c->f1, z); }
 #define lc_ok(c) lc_okz(c, ZB)
